@@ -72,8 +72,56 @@ def outside_metadata(root):
     return out
 
 
-def check(sp, strict):
-    case = {"tree": sp, "strict": strict}
+def check_unknown_root(sp, strict, form, case):
+    """prune called on a node whose own name is unknown: the node itself is the offending subtree - it is returned with a
+    reason, leaves the parent that lists it (if any) and the registry with everything below it; nothing is raised"""
+    Node.store.clear()
+    real = treegen.build(sp)
+    host = Node("dataset")
+    keep = Node("title", content="t")
+    host.add_child(keep)
+    listed = False
+    if form in ("inner-node", "copy-of-inner-node", "removed-child"):
+        host.add_child(real)
+        listed = True
+        if form == "copy-of-inner-node":
+            real = real.copy()
+            listed = False
+        elif form == "removed-child":
+            host.remove_child(real)
+            listed = False
+    below = treegen.nodes(real)
+    expect_host = [c for c in host.children if not (listed and c is real)]
+    try:
+        got = validate.prune(real) if form == "default-argument" else validate.prune(real, strict)
+    except Exception as e:  # noqa
+        raise Violation("prune-raises:" + type(e).__name__, f"{type(e).__name__}: {e} (unknown root, call form: {form})", case)
+    if not (isinstance(got, list) and len(got) == 1 and isinstance(got[0], tuple) and got[0][0] is real and got[0][1]):
+        raise Violation("unknown-root-not-reported", f"prune on an unknown element returned {str(got)[:120]}", case)
+    if list(host.children) != expect_host:
+        raise Violation("prune-reaches-outside-the-pruned-tree" if not listed else "unknown-node-left",
+                        f"enclosing children {[c.name for c in host.children]} expected {[c.name for c in expect_host]}", case)
+    left = [n.name for n in below if n.id in Node.store]
+    if left:
+        raise Violation("removed-node-still-registered", f"after prune on an unknown root these stay registered: {left[:5]}", case)
+    if Node.get_node_instance(keep.id) is not keep or Node.get_node_instance(host.id) is not host:
+        raise Violation("kept-node-unregistered", "a node outside the pruned tree left the registry", case)
+    return 1, 1, False
+
+
+FORMS = ["root", "root", "default-argument", "inner-node", "copy-of-inner-node", "removed-child"]
+
+
+def check(sp, strict, form="root"):
+    """form: how prune is called - on a parentless root (strict given), with the strict argument left out (non-strict is
+    the documented default), on an inner node of a larger tree, on a copy of an inner node (a copy keeps the original's
+    parent link), on a child that was removed from its parent (the link stays): the node prune is called on is the root of
+    the pruned tree in every case"""
+    case = {"tree": sp, "strict": strict, "form": form}
+    if form == "default-argument":
+        strict = False
+    if sp["n"] not in R.node_mappings:
+        return check_unknown_root(sp, strict, form, case)
     Node.store.clear()
     model = treegen.build(sp)
     m_nodes = treegen.nodes(model)
@@ -100,11 +148,26 @@ def check(sp, strict):
     real = treegen.build(sp)
     r_nodes = treegen.nodes(real)
     r_index = {id(n): i for i, n in enumerate(r_nodes)}
+    host = None
+    if form in ("inner-node", "copy-of-inner-node", "removed-child"):
+        host = Node("dataset")
+        host.add_child(Node("title", content="t"))
+        host.add_child(real)
+        if form == "copy-of-inner-node":
+            real = real.copy()
+            r_nodes = treegen.nodes(real)
+            r_index = {id(n): i for i, n in enumerate(r_nodes)}
+        elif form == "removed-child":
+            host.remove_child(real)
+        host_children = list(host.children)
     before = {i: snapshot.fields(n) for i, n in enumerate(r_nodes)}
     try:
-        got = validate.prune(real, strict)
+        got = validate.prune(real) if form == "default-argument" else validate.prune(real, strict)
     except Exception as e:  # noqa
-        raise Violation("prune-raises:" + type(e).__name__, f"{type(e).__name__}: {e}", case)
+        raise Violation("prune-raises:" + type(e).__name__, f"{type(e).__name__}: {e} (call form: {form})", case)
+    if host is not None and (list(host.children) != host_children or any(Node.get_node_instance(c.id) is not c for c in host.children)):
+        raise Violation("prune-reaches-outside-the-pruned-tree", f"the enclosing tree changed (call form: {form}): children "
+                        f"{[c.name for c in host_children]} -> {[c.name for c in host.children]}", case)
     if not isinstance(got, list):
         raise Violation("bad-return", f"returned {type(got).__name__}", case)
     got_idx = []
@@ -169,13 +232,14 @@ def cases(draw):
     from vf.pre import Pre
     pre = Pre(draw, 32)     # control choices first (vf/pre.py)
     strict = pre.bool()
+    form = pre.pick(FORMS)
     valid = treegen.valid_spec(max_nodes=30)
     fx = [s for s in treegen.subtrees_of_fixture(40) if s["n"] in R.node_mappings]
     base = st.one_of(valid, valid, st.sampled_from(fx)) if fx else valid
     sp0 = draw(base)
     root_name = sp0["n"]
     sp, labels = draw(treegen.mutated(st.just(sp0), 0 if pre.chance(8) else 1, 6, kinds=PLANT))
-    sp["n"] = root_name
+    sp["n"] = "zzBogusRoot" if pre.chance(10) else root_name
     if pre.chance(5):
         # foreign content under additionalMetadata/metadata where the rules allow additionalMetadata (eml): opaque
         # below metadata, but the metadata node itself is an ordinary node (at most one child, no text, no attributes)
@@ -202,7 +266,7 @@ def cases(draw):
         # the class the exception-steered implementation mishandles: offender under a parent with a content/attr error
         hosts = [s for _, s in treegen.spec_nodes(sp) if s["n"] in R.node_mappings and s["n"] != "metadata"]
         if not hosts:
-            return sp, strict
+            return sp, strict, form
         h = pre.pick(hosts)
         h.setdefault("k", []).insert(pre.int(0, len(h.get("k", []))),
                                      {"n": pre.pick(["zzBogus", "software", "eml", "title"])})
@@ -212,21 +276,22 @@ def cases(draw):
             h["c"] = "unexpected text" if "c" not in h else None
             if h["c"] is None:
                 del h["c"]
-    return sp, strict
+    return sp, strict, form
 
 
 def hyp_shard(ctx, shard):
     n = (2400 if ctx.quick else 120000) // 16
 
     def body(c):
-        sp, strict = c
-        nrem, ndepths, under = check(sp, strict)
+        sp, strict, form = c
+        nrem, ndepths, under = check(sp, strict, form)
+        ctx.count("call-form:" + form)
         nontriv = (nrem >= 2 and ndepths >= 2) or under
         ctx.note(key=c, nontrivial=nontriv,
                  cls=["strict" if strict else "non-strict", "removed:" + ("0" if nrem == 0 else "1" if nrem == 1 else "2+")]
                  + (["offender-under-invalid-parent"] if under else []))
         if nontriv and treegen.spec_size(sp) <= 10:
-            ctx.sample("tree", {"tree": sp, "strict": strict})
+            ctx.sample("tree", {"tree": sp, "strict": strict, "form": form})
 
     hyp_search(ctx, "prune", cases(), body, n, shard=shard)
 
@@ -237,7 +302,7 @@ def run(ctx):
 
 def replay(case):
     try:
-        check(case["tree"], case["strict"])
+        check(case["tree"], case["strict"], case.get("form", "root"))
     except Violation as v:
         return f"{v.bucket}: {v.message}"
     return None
